@@ -621,3 +621,74 @@ Proof.
   rewrite (D 0 fs (encode_fields fs) Hr); [|unfold fuel_for; lia|exact Hm].
   unfold fits. replace (0 + nest fs <? o_max o) with false by lia. reflexivity.
 Qed.
+
+(* ------------------------------------------------------------------ Protowire::serialize's encoder = the canonical encoder *)
+Lemma enc_plan_message : forall num ps, enc_plan (PlMessage num ps) =
+  match enc_plans ps with Some inner => Some (append_tag num 2 ++ append_bytes inner) | None => None end.
+Proof.
+  intros num ps. cbn [enc_plan].
+  assert (E : (fix go (ps0 : list plan) : option bytes :=
+                 match ps0 with [] => Some [] | q :: r => opt_app (enc_plan q) (go r) end) ps = enc_plans ps).
+  { induction ps as [|q r IH]; [reflexivity|]. cbn [enc_plans]. rewrite <- IH. reflexivity. }
+  rewrite E. reflexivity.
+Qed.
+Lemma enc_plan_group : forall num ps, enc_plan (PlGroup num ps) =
+  match enc_plans ps with Some inner => Some (append_tag num 3 ++ inner ++ append_tag num 4) | None => None end.
+Proof.
+  intros num ps. cbn [enc_plan].
+  assert (E : (fix go (ps0 : list plan) : option bytes :=
+                 match ps0 with [] => Some [] | q :: r => opt_app (enc_plan q) (go r) end) ps = enc_plans ps).
+  { induction ps as [|q r IH]; [reflexivity|]. cbn [enc_plans]. rewrite <- IH. reflexivity. }
+  rewrite E. reflexivity.
+Qed.
+
+Lemma enc_plans_fields : forall fs,
+  Forall (fun f => packed_varint_only f = true -> fixed32_small f = true -> enc_plan (plan_of f) = Some (encode_field f)) fs ->
+  forallb packed_varint_only fs = true -> forallb fixed32_small fs = true ->
+  enc_plans (map plan_of fs) = Some (flat_map encode_field fs).
+Proof.
+  induction 1 as [|f fs Hf Hfs IH]; intros Hp Hs; [reflexivity|].
+  cbn [forallb] in Hp, Hs. apply andb_prop in Hp. apply andb_prop in Hs.
+  destruct Hp as [Hp1 Hp2]. destruct Hs as [Hs1 Hs2].
+  cbn [map enc_plans flat_map]. rewrite (Hf Hp1 Hs1), (IH Hp2 Hs2). reflexivity.
+Qed.
+
+Lemma serialize_is_canonical_field : forall f, packed_varint_only f = true -> fixed32_small f = true ->
+  enc_plan (plan_of f) = Some (encode_field f).
+Proof.
+  induction f as [n v|n v|n v|n p|n fs IH|n et vs|n fs IH] using field_ind2; intros Hp Hs;
+    cbn [plan_of encode_field]; try reflexivity.
+  - cbn [fixed32_small] in Hs. cbn [enc_plan]. rewrite N.mod_small by lia. reflexivity.
+  - cbn [packed_varint_only] in Hp. cbn [fixed32_small] in Hs. rewrite enc_plan_message.
+    rewrite (enc_plans_fields fs IH Hp Hs). reflexivity.
+  - cbn [packed_varint_only] in Hp. assert (et = 0) by lia. subst. cbn [enc_plan]. reflexivity.
+  - cbn [packed_varint_only] in Hp. cbn [fixed32_small] in Hs. rewrite enc_plan_group.
+    rewrite (enc_plans_fields fs IH Hp Hs). reflexivity.
+Qed.
+
+Lemma serialize_is_canonical_l : forall fs,
+  forallb packed_varint_only fs = true -> forallb fixed32_small fs = true ->
+  enc_plans (map plan_of fs) = Some (encode_fields fs).
+Proof.
+  intros fs Hp Hs. apply enc_plans_fields; try assumption.
+  rewrite Forall_forall. intros f _. apply serialize_is_canonical_field.
+Qed.
+
+Lemma parse_serialize_l : forall o fs, wf_fields o fs = true -> forallb packed_varint_only fs = true ->
+  exists d, enc_plans (map plan_of fs) = Some d /\ parse_fields o 0 d = Ok fs.
+Proof.
+  intros o fs Hw Hp. exists (encode_fields fs). split; [|apply parse_encode_l; exact Hw].
+  apply serialize_is_canonical_l; [exact Hp|].
+  (* wf_fields bounds every fixed32 value below 2^32 *)
+  unfold wf_fields in Hw. apply andb_prop in Hw. destruct Hw as [_ Hw].
+  assert (G : forall f lvl, wf_field o lvl f = true -> fixed32_small f = true).
+  { induction f as [n v|n v|n v|n p|n gs IH|n et vs|n gs IH] using field_ind2; intros lvl H; try reflexivity.
+    - cbn [wf_field] in H. apply andb_prop in H. apply H.
+    - cbn [wf_field] in H. repeat (apply andb_prop in H; destruct H as [H ?]).
+      cbn [fixed32_small]. rewrite forallb_forall. intros g Hg. rewrite Forall_forall in IH.
+      match goal with Hf : forallb (wf_field o _) gs = true |- _ => rewrite forallb_forall in Hf; exact (IH g Hg _ (Hf g Hg)) end.
+    - cbn [wf_field] in H. repeat (apply andb_prop in H; destruct H as [H ?]).
+      cbn [fixed32_small]. rewrite forallb_forall. intros g Hg. rewrite Forall_forall in IH.
+      match goal with Hf : forallb (wf_field o _) gs = true |- _ => rewrite forallb_forall in Hf; exact (IH g Hg _ (Hf g Hg)) end. }
+  rewrite forallb_forall in *. intros f Hf. exact (G f 0 (Hw f Hf)).
+Qed.
